@@ -1,0 +1,11 @@
+//go:build verif
+
+package votecounter
+
+import "github.com/NethermindEth/juno/consensus/types"
+
+// VerifF and VerifQ expose the unexported threshold functions f and q to the /verif harness (C12).
+// Add-only, compiled only with the "verif" build tag.
+func VerifF(totalVotingPower types.VotingPower) types.VotingPower { return f(totalVotingPower) }
+
+func VerifQ(totalVotingPower types.VotingPower) types.VotingPower { return q(totalVotingPower) }
